@@ -87,3 +87,28 @@ package client
 //@ requires data != nil
 //@ modifies nothing
 //@ loop 1 invariant fresh(columns) || columns == nil
+
+// ---- condition.go (C08): WhereAll = all conditions in one list, WhereAny = one
+// list per condition; Matches = union over the lists --------------------------
+//@ func generateOvsdbConditionsFromModelConditions
+//@ requires info != nil
+//@ modifies nothing
+//@ ensures_ok singleOp ==> (len(result0) == 1 && len(result0[0]) == len(conditions) && (forall i: int :: 0 <= i && i < len(conditions) ==> (result0[0][i].Column == condCol(info.Obj, conditions[i].Field) && result0[0][i].Function == conditions[i].Function && result0[0][i].Value == condVal(info.Obj, conditions[i].Field, conditions[i].Value))))
+//@ ensures_ok !singleOp ==> (len(result0) == len(conditions) && (forall i: int :: 0 <= i && i < len(conditions) ==> (len(result0[i]) == 1 && result0[i][0].Column == condCol(info.Obj, conditions[i].Field) && result0[i][0].Function == conditions[i].Function && result0[i][0].Value == condVal(info.Obj, conditions[i].Field, conditions[i].Value))))
+//@ loop 1 invariant fresh(anyConditions) && 0 <= len(anyConditions) && len(anyConditions) <= cap(anyConditions)
+//@ loop 1 invariant singleOp ==> (len(anyConditions) == 1 && (cap(anyConditions[0]) > 0 ==> fresh(anyConditions[0])) && len(anyConditions[0]) == rangeindex + 1 && (forall i: int :: 0 <= i && i <= rangeindex ==> (anyConditions[0][i].Column == condCol(info.Obj, conditions[i].Field) && anyConditions[0][i].Function == conditions[i].Function && anyConditions[0][i].Value == condVal(info.Obj, conditions[i].Field, conditions[i].Value))))
+//@ loop 1 invariant !singleOp ==> (len(anyConditions) == rangeindex + 1 && (forall i: int :: 0 <= i && i <= rangeindex ==> (len(anyConditions[i]) == 1 && allocated(anyConditions[i]) && anyConditions[i][0].Column == condCol(info.Obj, conditions[i].Field) && anyConditions[i][0].Function == conditions[i].Function && anyConditions[i][0].Value == condVal(info.Obj, conditions[i].Field, conditions[i].Value))))
+
+//@ func (*explicitConditional).Matches
+//@ requires c != nil && c.cache != nil
+//@ modifies nothing
+//@ ensures_ok result0 != nil && fresh(result0)
+//@ ensures_ok forall u: string :: (u in result0) == (exists i: int :: 0 <= i && i < len(c.anyConditions) && matchesAll(c.cache.cache[c.tableName], c.anyConditions[i], u))
+//@ loop 1 invariant found != nil && fresh(found) && tableCache == c.cache.cache[c.tableName]
+//@ loop 1 invariant forall u: string :: (u in found) ==> (exists i: int :: 0 <= i && i <= rangeindex && matchesAll(tableCache, c.anyConditions[i], u))
+//@ loop 1 invariant forall u: string, i: int :: 0 <= i && i <= rangeindex && matchesAll(tableCache, c.anyConditions[i], u) ==> (u in found)
+//@ loop 2 invariant found != nil && fresh(found) && tableCache == c.cache.cache[c.tableName]
+//@ loop 2 invariant forall u: string :: (u in found) ==> ((exists i: int :: 0 <= i && i <= rangeindex1 && matchesAll(tableCache, c.anyConditions[i], u)) || (visited(u) && matchesAll(tableCache, c.anyConditions[rangeindex1 + 1], u)))
+//@ loop 2 invariant forall u: string, i: int :: 0 <= i && i <= rangeindex1 && matchesAll(tableCache, c.anyConditions[i], u) ==> (u in found)
+//@ loop 2 invariant forall u: string :: visited(u) && matchesAll(tableCache, c.anyConditions[rangeindex1 + 1], u) ==> (u in found)
+//@ loop 2 invariant forall u: string :: (u in models) == matchesAll(tableCache, c.anyConditions[rangeindex1 + 1], u)
